@@ -22,6 +22,8 @@ def run(rep, idx, tier):
     rep.require("C17.4", 1)
     from .c19 import shared_state
     shared_state(rep, idx, rule="C17.4", classes=["Builder"])
+    from . import glue as _glue
+    _glue.param_refusals(rep, "C17.4", idx, only=["Builder.__init__"])
     add(rep, idx)
     scopes(rep, idx)
     as_memory_map(rep, idx)
